@@ -206,21 +206,25 @@ Section StreamCycles.
       destruct (Nat.leb_spec (Nat.max 1000 (n + 1)) (x - n + 1 + Nat.max 1000 (n + 1))); lia.
   Qed.
 
-  (* the reported entry of a stream cycle q from position i to i + n: latency = the sum of the weights along q (added left to right
-     from 0), members = the instructions (line number = position mod n + 1) with the weight of the edge leaving them, sorted *)
+  (* the reported entry of a stream cycle q from position i to i + n: members = the instructions (line number = position mod n + 1)
+     with the weight of the edge leaving them, sorted; latency = the sum of the members' weights, added left to right from 0 in the
+     order of that SORTED list (sum_pairs) -- not in the order of q, so it does not depend on the position i the cycle is entered at *)
+  Definition cycle_members_of (k : list line) (q : list (nat * T)) : list (nat * T) :=
+    sort_pairs N (map (fun xw => (fst xw mod List.length k + 1, snd xw)) q).
   Definition cycle_entry (k : list line) (q : list (nat * T)) : entry (T:=T) :=
-    (fold_left (nadd N) (map snd q) (n0 N),
-     sort_pairs N (map (fun xw => (fst xw mod List.length k + 1, snd xw)) q)).
+    (sum_pairs N (cycle_members_of k q), cycle_members_of k q).
 
   Lemma entry_of_cycle (k : list line) i q : i < List.length k -> spath T (SE (body N k)) i (i + List.length k) q ->
     entry_of N (lcd_offset (renumber k)) (cycle_lines k q) = cycle_entry k q.
   Proof.
     intros Hi Hq. assert (H0 : 0 < List.length k) by lia.
     pose proof (proj2 (spath_range T (List.length k) (SE (body N k)) H0 (E_forward N dep fwd pidx fd k) _ _ _ Hq)) as Rg.
-    unfold entry_of, cycle_entry, cycle_lines. f_equal.
-    - rewrite fold_weights, map_map. reflexivity.
-    - f_equal. rewrite map_map. apply map_ext_in. intros [x w] Hin. cbn [fst snd]. f_equal.
-      apply back_line_of; [exact H0|]. specialize (Rg _ _ Hin). lia.
+    unfold entry_of, cycle_entry, cycle_members_of, cycle_lines. cbv zeta.
+    assert (E : map (fun sw => (back (lcd_offset (renumber k)) (fst sw), snd sw)) (map (fun xw => (line_of k (fst xw), snd xw)) q)
+                = map (fun xw => (fst xw mod List.length k + 1, snd xw)) q).
+    { rewrite map_map. apply map_ext_in. intros [x w] Hin. cbn [fst snd]. f_equal.
+      apply back_line_of; [exact H0|]. specialize (Rg _ _ Hin). lia. }
+    rewrite E. reflexivity.
   Qed.
 
   (* every reported loop-carried dependency is the entry of a cross-iteration cycle of the instruction stream ... *)
